@@ -276,7 +276,7 @@ def plan(tier):
     q = tier == 'quick'
     sh = []
     for cause in CAUSES:
-        s = {'cause': cause, 'gmax': 8 if q else 14, 'rmax': 12 if q else 20}
+        s = {'cause': cause, 'gmax': 8 if q else 20, 'rmax': 12 if q else 30}
         if cause == 'kill_override':
             s['omax'] = 5 if q else 10
             s['gmax'] = 6 if q else 10       # watcher timeouts well above the override: an override that is dropped shows
